@@ -595,7 +595,7 @@ impl<'a> VisitMut for Rewriter<'a> {
                                 (Some(r), _) => { let t: Type = syn::parse_str(r).unwrap(); quote! { ::<_, _, _, #t> } }
                                 _ => quote! {},
                             };
-                            let new: Expr = parse_quote! { #nm #tf(&mut #f2, #(#args2),*, Tracked(w)) };
+                            let new: Expr = parse_quote! { #nm #tf(&#f2, #(#args2),*, Tracked(w)) };
                             self.fired.push(format!("R6-user-visit-{}", n));
                             *e = new;
                             visit_mut::visit_expr_mut(self, e);
